@@ -28,7 +28,7 @@ def tasks(tier):
 def post(obs, tier, rep):
     """native replay of the bookkeeping obligations: qr_vmap_uhf norm factors vs numpy QR on an open-shell pair of blocks"""
     for o in obs:
-        if o["status"] == "refuted" and o["kind"] != "canary" and o["name"] in ("C05.fp.norm", "C05.fp.overlap", "C05.fp.walkers"):
+        if o["status"] == "refuted" and o["kind"] != "canary" and o["name"] in ("C05.fp.norm", "C05.fp.overlap", "C05.fp.walkers") and not o.get("replayed"):
             try:
                 import numpy as np
                 from contracts import native
@@ -41,7 +41,7 @@ def post(obs, tier, rep):
                 ref = np.array([[np.prod(np.diag(np.linalg.qr(b[k])[1])) for k in range(2)] for b in (up, dn)])
                 dev = float(np.max(np.abs(np.abs(np.asarray(norms)) - np.abs(ref))))
                 o["replayed"] = bool(dev > 1e-10)
-                o["witness"] = dict(o.get("witness") or {}, native=dict(check="|norm factors| of qr_vmap_uhf vs |prod diag R| from numpy per spin block (open shell 2+1)", max_deviation=dev))
+                o["witness"] = dict(o.get("witness") or {}, native_qr=dict(check="|norm factors| of qr_vmap_uhf vs |prod diag R| from numpy per spin block (open shell 2+1)", max_deviation=dev))
             except Exception as e:   # noqa
                 o["witness"] = dict(native_error=repr(e)[:200])
     return obs
